@@ -250,6 +250,10 @@ def colored_render_to_stream(
                     stream.write(str(color))
 
             elif isinstance(sdoc, SAnnotationPop):
+                if not isinstance(sdoc.value, Token):
+                    # Nothing was pushed for this annotation.
+                    continue
+
                 try:
                     colorstack.pop()
                 except IndexError:
